@@ -1,5 +1,8 @@
 """C12, last sentence: what the task code observes in the job process (parameter file written by the real
 code in GENERATE_ONLY mode, loaded and executed by experimaestro.run.run in a fresh interpreter)"""
+import os as _os
+
+REPO_SRC = _os.environ.get("XV_REPO_SRC", "/repo/src")
 import json
 import os
 import subprocess
@@ -105,7 +108,7 @@ def cmpv(graph, v, g, echo, mapping, problems, where):
         problems.append(f"{where}: {g} in the task process, configured {v}")
 
 
-def run(graphs_roots, repo_src="/repo/src"):
+def run(graphs_roots, repo_src=REPO_SRC):
     """graphs_roots: list of (graph, root).  Returns list of problem lists"""
     from . import tlc
 
